@@ -281,6 +281,26 @@ statechart:
                 during.append('while %r was announced the SynchronizedClock showed %r; the step was called at %r'
                               % (event.name, sync.time, t))
         it.attach(watcher)
+        # interpreters bound to it (a property statechart given as such, or as a ready-made interpreter, the form
+        # of sismic < 1.4) get a clock which follows *it*
+        import warnings
+        bound = []
+        for form in rnd.sample(['statechart', 'interpreter'], rnd.randint(0, 2)):
+            quiet = copy.deepcopy(C14.FOLLOWED)
+            if form == 'statechart':
+                made = []
+
+                def klass(statechart, clock=None):
+                    made.append(Interpreter(statechart, clock=clock))
+                    return made[-1]
+                it.bind_property_statechart(quiet, interpreter_klass=klass)
+                bound.append((form, made[-1]))
+            else:
+                ready = Interpreter(quiet)
+                with warnings.catch_warnings():
+                    warnings.simplefilter('ignore')
+                    it.bind_property_statechart(ready)
+                bound.append((form, ready))
         for k in range(rnd.randint(4, 14)):
             c = rnd.random()
             if c < 0.3:
@@ -304,6 +324,12 @@ statechart:
                 res.violations.append('after %s (op %d of the followed interpreter) the SynchronizedClock shows %r / a fresh one %r; '
                                       'the last step was at %r' % (what, k, sync.time, SynchronizedClock(it).time, last))
                 return
+            for form, b in bound:
+                if b.clock.time != last:
+                    res.violations.append('after %s (op %d of the followed interpreter) the clock of the interpreter bound to it '
+                                          '(property given as %s) shows %r; the last step of the followed one was at %r'
+                                          % (what, k, form, b.clock.time, last))
+                    return
         res.features.add('followed-interpreter')
 
     def shrink_candidates(self, case):
